@@ -34,6 +34,7 @@ struct F_png {
     static const char* ext() { return "png"; }
     static const bool has_FILE = true;
     static const bool subrect = true;
+    static const bool lib_codec = true;
     static const bool strict_field_reads = false;
     static const bool has_info_all = true;
     static size_t fixed_header_len(std::string const&) { return 0; }
@@ -299,6 +300,7 @@ struct F_jpeg {
     static const char* ext() { return "jpg"; }
     static const bool has_FILE = true;
     static const bool subrect = true;
+    static const bool lib_codec = true;
     static const bool strict_field_reads = false;
     static const bool has_info_all = false;
     static size_t fixed_header_len(std::string const&) { return 0; }
@@ -557,6 +559,7 @@ struct F_tiff {
     static const char* ext() { return "tif"; }
     static const bool has_FILE = false;         // GIL has no FILE* device for TIFF
     static const bool subrect = true;
+    static const bool lib_codec = true;
     static const bool strict_field_reads = false;
     static const bool has_info_all = false;
     static size_t fixed_header_len(std::string const&) { return 0; }
